@@ -194,6 +194,30 @@ NAMES = {
 }
 
 
+def empty_operand_cases():
+    """the eager functions return [] for an exact zero: [] must then be a legal operand of every function (finite cases)"""
+    warnings.simplefilter("ignore")
+    import functional_algorithms.apmath as AP
+    import functional_algorithms.utils as U
+
+    bad = []
+    for tn in TYPES:
+        t = getattr(numpy, tn)
+        ctx = U.NumpyContext(t)
+        with numpy.errstate(all="ignore"):
+            z = AP.subtract(ctx, [t(1.5)], [t(1.5)])
+            if z != []:
+                continue  # zero is not represented by the empty list: nothing to check
+            for name, f, want in (("add(z, z)", lambda: AP.add(ctx, z, z), Fraction(0)), ("add(z, [2])", lambda: AP.add(ctx, z, [t(2)]), Fraction(2)), ("subtract([2], z)", lambda: AP.subtract(ctx, [t(2)], z), Fraction(2)), ("renormalize(z)", lambda: AP.renormalize(ctx, z), Fraction(0)), ("multiply(z, [2])", lambda: AP.multiply(ctx, z, [t(2)]), Fraction(0)), ("square(z)", lambda: AP.square(ctx, z), Fraction(0))):
+                try:
+                    r = f()
+                    if sum((F(v) for v in r), Fraction(0)) != want:
+                        bad.append(dict(t=tn, call=name, got=[repr(v) for v in r]))
+                except Exception as e:
+                    bad.append(dict(t=tn, call=name, raised=repr(e)[:120]))
+    return bad
+
+
 def run(rep, tier, prop="C12"):
     per = 3000 if tier == "quick" else 30000
     jobs = []
@@ -212,6 +236,8 @@ def run(rep, tier, prop="C12"):
             for name in names:
                 lst = agg.get((tn, name), [])
                 rep.add(core.decided("%s/bounded/%s/%s" % (prop, name, tn), prop, not lst, functions=("apmath.%s" % name.split("/")[0],), text="bounded stand-in: %s on %d directed expansions" % (name, seen.get((tn, what), 0)), detail=dict(failures=lst[:3], inputs=seen.get((tn, what), 0)), kind="bounded", solver="native-run", meta=dict(part="bounded", fails=lst[:3], t=tn, name=name)))
+    bad = empty_operand_cases()
+    rep.add(core.decided("%s/bounded/empty-expansion-as-operand" % prop, prop, not bad, functions=("apmath.renormalize", "apmath.add", "apmath.square"), text="z = subtract([1.5], [1.5]) is [] (an exact zero): add, subtract, renormalize, multiply, square accept it and keep the exact value", detail=dict(failures=bad[:6]), kind="bounded", solver="native-run", meta=dict(part="bounded", fails=bad[:6], t="-", name="empty-expansion-as-operand")))
     rep.bounded.append(dict(what="renormalize (eager/functional, safe; fast on its documented precondition): exact sum, length, normal form after two passes, size limit = prefix; add/subtract exact; multiply/square within one ulp of the leading term - real functions executed natively with exact rational bookkeeping", bound="%d directed expansions (1..6 items; non-overlapping, overlapping, arbitrary order, zeros, cancellation, equal magnitudes) per function group and format, seeded" % per, counted_as_proved=False))
 
 
